@@ -506,6 +506,10 @@ def ite_value(c, a, b):
         return a if c else b
     if isinstance(a, tuple) and isinstance(b, tuple) and len(a) == len(b):
         return tuple(ite_value(c, x, y) for x, y in zip(a, b))
+    if isinstance(a, NpArr) and isinstance(b, NpArr) and a.cell is b.cell and a.row is not None and b.row is not None:
+        return NpArr(a.cell, z3.If(c, a.row, b.row))
+    if isinstance(a, Obj) and isinstance(b, Obj) and a.cls is b.cls and set(a.fields) == set(b.fields):
+        return Obj(a.cls, {k: ite_value(c, a.fields[k], b.fields[k]) for k in a.fields}, fresh=a.fresh and b.fresh)
     ka, kb = kind_of(a), kind_of(b)
     if ka is None or kb is None:
         raise EngineLimit(f"conditional merge of {a!r} and {b!r}")
